@@ -26,6 +26,11 @@ def _build(HERE, REPO):
     if os.path.isdir(os.path.join(work, "src")):
         shutil.rmtree(os.path.join(work, "src"))
     shutil.copytree(os.path.join(HERE, "replay", "src"), os.path.join(work, "src"))
+    for fn in os.listdir(os.path.join(work, "src")):   # files that mount real sources of REPO by #[path]
+        if fn.endswith(".in"):
+            t = open(os.path.join(work, "src", fn)).read().replace("@REPO@", REPO)
+            open(os.path.join(work, "src", fn[:-3]), "w").write(t)
+            os.remove(os.path.join(work, "src", fn))
     lock = os.path.join(REPO, "Cargo.lock")
     if os.path.exists(lock):
         shutil.copy(lock, os.path.join(work, "Cargo.lock"))
@@ -36,20 +41,29 @@ def _build(HERE, REPO):
     return os.path.join(HERE, ".work", "replay_target", "debug", "deltio-replay"), ""
 
 
-def _run(binary, args, timeout):
+def _run_all(binary, args, timeout):
+    """-> (list of witnesses, text): every WITNESS line of the search (the rpc suite prints one per failing scenario)"""
     try:
         p = subprocess.run([binary] + [str(a) for a in args], capture_output=True, text=True, timeout=timeout)
     except subprocess.TimeoutExpired:
-        return None, "timeout"
+        return [], "timeout"
+    ws = []
     for ln in p.stdout.splitlines():
         if ln.startswith("WITNESS "):
             try:
-                return json.loads(ln[len("WITNESS "):]), ln
+                ws.append(json.loads(ln[len("WITNESS "):]))
             except Exception:
-                return {"raw": ln[len("WITNESS "):]}, ln
+                ws.append({"raw": ln[len("WITNESS "):]})
+    if ws:
+        return ws, "\n".join(l for l in p.stdout.splitlines() if l.startswith("WITNESS "))[:1500]
     if "NO-WITNESS" not in p.stdout:
-        return None, "ERROR: search ended without a verdict (exit %s): %s" % (p.returncode, (p.stdout + p.stderr).strip()[-300:])
-    return None, p.stdout.strip()[-300:]
+        return [], "ERROR: search ended without a verdict (exit %s): %s" % (p.returncode, (p.stdout + p.stderr).strip()[-300:])
+    return [], p.stdout.strip()[-300:]
+
+
+def _run(binary, args, timeout):
+    ws, out = _run_all(binary, args, timeout)
+    return (ws[0] if ws else None), out
 
 
 # which bounded searches stand in for the parts of each property that are out of the deductive verifier's reach
@@ -61,13 +75,14 @@ SEARCHES = {
                   "random create/delete/publish histories over 2 topic names x 3 subscription names, incl. racing creates and held topic handles"),
     "order":     (["order", 40], ["order", 400], "2-4 concurrent publishers x 3 messages on a 2-thread runtime, 2 subscriptions"),
     "names":     (["names", 3], ["names", 5], "all strings = stem + suffix over {p,t,/,s,e-acute,-} up to the given suffix length, 24 stems"),
-    "rpc":       (["rpc"], ["rpc"], "7 scripted gRPC scenarios over a unix socket: pull limits and waiting, batch parsing, in-stream modack, streaming limits and control messages, namespace status codes, malformed fields, list walks and content identity"),
+    "rpc":       (["rpc"], ["rpc"], "10 scripted gRPC scenarios over a unix socket: pull limits and waiting, batch parsing, in-stream modack, streaming limits and control messages, namespace status codes, malformed fields, list walks and content identity, two parked pulls, HTTP push payload content, a 300-topic list walk"),
+    "tokens":    (["tokens", 22], ["tokens", 27], "page-token codec (src/api/page_token.rs mounted by path): encode/decode round trip for every offset below 2^22 (thorough: 2^27), every byte value at every byte position over 3 backgrounds, 200000 random 64-bit offsets; 200000 hostile strings never panic"),
     "paging":    (["paging", 7], ["paging", 12], "page walks over 0,1,2,n resources in 2 projects, 11 page sizes x 6 start offsets, 3 list operations"),
 }
 BY_PROP = {
-    "C01": ["history", "lifecycle"], "C02": ["history", "rpc"], "C03": ["history"], "C04": ["history", "rpc"], "C05": ["history", "rpc"],
+    "C01": ["history", "lifecycle"], "C02": ["history", "rpc"], "C03": ["history", "rpc"], "C04": ["history", "rpc"], "C05": ["history", "rpc"],
     "C08": ["order", "history"], "C09": ["lifecycle", "rpc"], "C10": ["lifecycle", "rpc"], "C11": ["lifecycle", "rpc"],
-    "C13": ["paging", "lifecycle", "rpc"], "C15": ["history", "rpc"], "C17": ["names", "paging", "rpc"], "C18": ["names"],
+    "C13": ["paging", "tokens", "lifecycle", "rpc"], "C15": ["history", "rpc"], "C17": ["names", "paging", "tokens", "rpc"], "C18": ["names"],
 }
 
 
@@ -85,14 +100,16 @@ def standin(prop, HERE, REPO, tier="quick", seed=0):
     for kind in kinds:
         q, th, bound = SEARCHES[kind]
         args = [str(a).replace("{seed}", str(seed + 1)) for a in (th if tier == "thorough" else q)]
-        w, out = _run(binary, args, 600 if tier == "thorough" else 120)
-        runs.append({"search": " ".join(args), "bound": bound, "result": ("WITNESS property=%s" % w.get("property")) if w else out})
-        if not w and str(out).startswith(("ERROR", "timeout")):
+        ws, out = _run_all(binary, args, 600 if tier == "thorough" else 120)
+        runs.append({"search": " ".join(args), "bound": bound,
+                     "result": ("WITNESS " + ", ".join("property=%s" % w.get("property") for w in ws)) if ws else out})
+        if not ws and str(out).startswith(("ERROR", "timeout")):
             errors.append("%s: %s" % (" ".join(args), out))
-        if w and (w.get("property") == prop or prop in w.get("also", [])) and witness is None:
-            witness = w
-        elif w and other is None:
-            other = w
+        for w in ws:
+            if (w.get("property") == prop or prop in w.get("also", [])) and witness is None:
+                witness = w
+            elif other is None:
+                other = w
     return {"status": "witness" if witness else ("error" if errors else "clean"), "errors": errors, "runs": runs, "witness": witness, "other_property_witness": other,
             "wall_s": round(time.time() - t0, 1)}
 
@@ -130,7 +147,10 @@ def replay(path, HERE, REPO):
         elif w.get("kind") == "order":
             got, out = _run(binary, ["order", 200], 300)
         elif w.get("kind") == "rpc":
-            got, out = _run(binary, ["rpc"], 300)
+            ws, out = _run_all(binary, ["rpc"], 300)
+            got = next((x for x in ws if x.get("scenario") == w.get("scenario")), None)
+        elif w.get("kind") == "tokens":
+            got, out = _run(binary, ["tokens", 22], 300)
         elif w.get("kind", "").startswith("name"):
             got, out = _run(binary, ["names", 4], 120)
         else:
